@@ -180,7 +180,7 @@ func canonical() []*scenario {
 		{Name: "canon-free-through-sibling-earlier-process-holds-same-vaddr", Log2Page: 12, GPUPages: []int{16}, Ops: []op{
 			{K: kInit, C: 0}, {K: kInit, C: 1}, {K: kInitPID, C: 2, From: 1}, // Q; P with contexts 1 and 2
 			{K: kAlloc, C: 0, Size: P}, {K: kAlloc, C: 1, Size: P}, // buffers 0 (Q) and 1 (P) start at the same virtual address
-			{K: kFree, C: 2, Buf: 1}, // P frees through its sibling context
+			{K: kFree, C: 2, Buf: 1},                                         // P frees through its sibling context
 			{K: kAlloc, C: 2, Size: 2 * P}, {K: kAlloc, C: 0, Size: 2*P - 1}, // buffers 2 (P), 3 (Q): same start again
 			{K: kFree, C: 1, Buf: 2}, {K: kFree, C: 0, Buf: 0}, {K: kFree, C: 0, Buf: 3}, {K: kAlloc, C: 1, Size: P}}},
 		{Name: "canon-free-through-sibling-later-process-holds-same-vaddr", Log2Page: 14, GPUPages: []int{16, 16}, Ops: []op{
@@ -261,6 +261,12 @@ func canonical() []*scenario {
 			{K: kAlloc, C: 0, Size: P}, {K: kAlloc, C: 1, Size: P}, {K: kAlloc, C: 2, Size: P}, {K: kAlloc, C: 0, Size: P},
 			{K: kFree, C: 2, Buf: 1}, {K: kFree, C: 1, Buf: 2}, {K: kAlloc, C: 1, Size: P}, {K: kAlloc, C: 2, Size: P},
 			{K: kFree, C: 0, Buf: 0}, {K: kFree, C: 0, Buf: 3}}},
+		// the allocation pattern of kernel launches between user frees (C11's
+		// free / re-allocate rounds in emulation): every launch allocates a
+		// code page, a kernarg page and a packet page through the same context
+		// and never frees them; user buffers of 4 pages come and go; a second
+		// process repeats it on the recycled frames
+		{Name: "canon-buddy-kernel-launch-allocation-pattern", Buddy: true, Log2Page: 12, GPUPages: []int{64}, Ops: launchPattern()},
 		{Name: "canon-buddy-migrate-free-reallocate", Buddy: true, Log2Page: 12, GPUPages: []int{16, 4, 8}, Ops: []op{
 			{K: kInit, C: 0}, {K: kAllocU, C: 0, Size: 3 * P}, {K: kAllocU, C: 0, Size: P}, // buffers 0, 1
 			{K: kMigrate, C: 0, Migs: []migPart{{Buf: 0, Page: 0, Dev: 2}, {Buf: 0, Page: 1, Dev: 2}, {Buf: 0, Page: 2, Dev: 3}}},
@@ -275,6 +281,50 @@ func canonical() []*scenario {
 		{Name: "canon-engine-free-middle-then-copy", Log2Page: 12, GPUPages: []int{64},
 			Engine: &engineCase{Pre: 3, Post: 1, Free: []int{1}, Copy: 0, GPUs: 1}},
 	}
+}
+
+func launchPattern() []op {
+	var ops []op
+	nb := 0
+	alloc := func(c int, sizes ...uint64) int {
+		first := nb
+		for _, sz := range sizes {
+			ops = append(ops, op{K: kAlloc, C: c, Size: sz})
+			nb++
+		}
+		return first
+	}
+	launch := func(c int, code, kernarg uint64) { alloc(c, code, kernarg, 64) }
+	ops = append(ops, op{K: kInit, C: 0})
+	alloc(0, 16384)
+	a := alloc(0, 12800)
+	launch(0, 140, 80)
+	launch(0, 140, 80)
+	ops = append(ops, op{K: kFree, C: 0, Buf: a})
+	a = alloc(0, 12800)
+	launch(0, 76, 16)
+	ops = append(ops, op{K: kFree, C: 0, Buf: a})
+	a = alloc(0, 12800)
+	launch(0, 140, 80)
+	launch(0, 140, 80)
+	ops = append(ops, op{K: kFree, C: 0, Buf: a})
+	a = alloc(0, 12800)
+	alloc(0, 16, 64)
+	launch(0, 72, 16)
+	ops = append(ops, op{K: kFree, C: 0, Buf: a})
+	ops = append(ops, op{K: kInit, C: 1})
+	alloc(1, 16384)
+	a = alloc(1, 8192)
+	launch(1, 76, 16)
+	ops = append(ops, op{K: kFree, C: 1, Buf: a})
+	a = alloc(1, 4096, 12288)
+	alloc(1, 16, 64)
+	launch(1, 72, 16)
+	ops = append(ops, op{K: kFree, C: 1, Buf: a}, op{K: kFree, C: 1, Buf: a + 1})
+	a = alloc(1, 8192)
+	alloc(1, 16, 64)
+	ops = append(ops, op{K: kFree, C: 1, Buf: a})
+	return ops
 }
 
 func rep(o op, n int) []op {
